@@ -90,7 +90,7 @@ class Job:
         self.expect_fail = list(expect_fail)   # regexes of descriptions expected to FAIL (treated like witnesses)
 
     def cmd(self, backend, trace_prop=None):
-        c = ['cbmc'] + self.sources + ['--function', self.entry, '--json-ui', '--drop-unused-functions',
+        c = ['cbmc'] + self.sources + ['--function', self.entry, '--json-ui', '--verbosity', '8', '--drop-unused-functions',
                                        '--unwinding-assertions', '-I', H]
         for i in self.incs:
             c += ['-I', i]
@@ -118,6 +118,10 @@ class Result:
         self.wall = 0.0
         self.solver_s = 0.0
         self.vccs = (0, 0)
+        self.steps = 0        # CBMC: size of program expression (SSA steps of the unwound program)
+        self.unwound = 0      # loop iterations / recursion levels unwound by symbolic execution
+        self.sat_vars = 0
+        self.sat_clauses = 0
         self.rss_kb = 0
         self.replays = []               # dicts
 
@@ -240,6 +244,14 @@ def run_job(job, ctx):
         mm = re.search(r'Generated (\d+) VCC\(s\), (\d+) remaining', t)
         if mm:
             res.vccs = (int(mm.group(1)), int(mm.group(2)))
+        mm = re.search(r'size of program expression: (\d+) steps', t)
+        if mm:
+            res.steps = int(mm.group(1))
+        if t.startswith('Unwinding loop') or t.startswith('Unwinding recursion'):
+            res.unwound += 1
+        mm = re.search(r'^(\d+) variables, (\d+) clauses', t)
+        if mm:
+            res.sat_vars, res.sat_clauses = int(mm.group(1)), int(mm.group(2))
         mm = re.search(r'Runtime Solver: ([\d.e+-]+)s', t)
         if mm:
             res.solver_s += float(mm.group(1))
@@ -545,7 +557,21 @@ def write_evidence(prop, tier, seed, level, meta, results, aux, wall, violations
     if level == 'translation_validation':
         cov['programs'] = max(1, len(set(r.job.group for r in results)))
         cov['disagreements_checked'] = sum(len(r.failed) for r in results)
+    cov['symex_steps'] = sum(r.steps for r in results)
+    cov['loop_iterations_unwound'] = sum(r.unwound for r in results)
+    cov['sat_variables'] = sum(r.sat_vars for r in results)
+    cov['sat_clauses'] = sum(r.sat_clauses for r in results)
     if level == 'model_checking':
+        # bounded model checking is symbolic: 'states' counts the SSA steps of the unwound programs (each step stands
+        # for ALL concrete states that reach that program point within the bound, not one concrete state), and
+        # 'transitions' counts the verification conditions generated over those steps (the assertion / bounds /
+        # pointer / unwinding checks that every path through a step must satisfy); both are read from CBMC's own
+        # statistics for the winning back end of every query and summed
+        cov['states'] = max(1, cov.pop('symex_steps'))
+        cov['transitions'] = max(1, cov.pop('vccs_generated'))
+        cov['states_transitions_rule'] = ('symbolic: states = sum of CBMC "size of program expression" (SSA steps of the unwound '
+                                          'harness+implementation); transitions = sum of CBMC "Generated N VCC(s)"; concrete state '
+                                          'counts are not defined for a SAT/SMT-decided query')
         cov['traces_validated_against_impl'] = sum(1 for r in results for i in r.replays if i.get('confirmed'))
     cov.update(aux or {})
     ev = {
